@@ -117,8 +117,14 @@ def playback(tmp, hname, fargs, timeout=600):
     if not m:
         return None
     test = m.group(1)
-    src = open(os.path.join(tmp, 'src', 'verif_kani.rs')).read()
-    k = src.find('fn ' + test)
+    src = ''
+    k = -1
+    for fn in sorted(os.listdir(os.path.join(tmp, 'src'))):
+        if fn.startswith('verif_kani'):
+            src = open(os.path.join(tmp, 'src', fn)).read()
+            k = src.find('fn ' + test)
+            if k >= 0:
+                break
     vals = []
     if k >= 0:
         body = src[k:src.find('kani::concrete_playback_run', k)]
@@ -156,7 +162,7 @@ def run(step, repo, tier='quick', seed=0):
         fargs = feature_args(step.get('features'))
         cmd = ['cargo', 'kani'] + KANI_FLAGS + ['-j', str(step.get('jobs', 16))] + fargs
         for m in sel:
-            cmd += ['--harness', 'verif_kani::' + m['name']]
+            cmd += ['--harness', m.get('path', 'verif_kani::' + m['name'])]
         cmd += ['--exact']
         res['cmd'] = 'cargo kani %s -j 16 %s --exact --harness <%d harnesses of unit %s tagged %s>' % (' '.join(KANI_FLAGS), ' '.join(fargs), len(sel), step['unit'], pid)
         try:
@@ -175,7 +181,7 @@ def run(step, repo, tier='quick', seed=0):
             return res
         res['harnesses'] = len(sel)
         for m in sel:
-            full = 'verif_kani::' + m['name']
+            full = m.get('path', 'verif_kani::' + m['name'])
             r = parsed.get(full)
             if r is None or r['result'] is None:
                 res['tool_errors'].append('no result for harness ' + m['name'])
@@ -214,12 +220,15 @@ def run(step, repo, tier='quick', seed=0):
                 tags |= t if t else set(m['tags']) | (set(['C18']) if m.get('valid_input', True) else set())
             if m.get('expect') == 'panic' and not r['failed']:
                 tags = set(m['tags'])
+            # a failed bridge obligation ([B1]/[B2]/[B3]) invalidates an assumption of the property being checked
+            if any(d for d in descs if re.search(r'\[B\d\]', d[0])) and pid in m['tags']:
+                tags.add(pid)
             f = {'name': '%s :: harness %s (%s) :: %s' % (step['unit'], m['name'], m.get('target', ''), '; '.join(d[0] for d in descs)[:400]),
                  'tags': sorted(tags), 'message': '; '.join(d[0] for d in descs),
                  'rendered': 'Kani harness %s: VERIFICATION %s %s\n' % (m['name'], r['result'], r['note']) + '\n'.join('Failed check: %s (%s:%d in %s)' % d for d in descs)}
             pbh = m['name'] if m.get('expect', 'pass') == 'pass' else m.get('playback_harness')
             if pid in tags and pbh and not step.get('no_playback') and sum(1 for x in res['failures'] if x.get('counterexample')) < 2:
-                pb = playback(tmp, 'verif_kani::' + pbh, fargs)
+                pb = playback(tmp, (m.get('path', 'verif_kani::' + m['name'])).rsplit('::', 1)[0] + '::' + pbh, fargs)
                 if pb:
                     f['counterexample'] = {'harness': m['name'], 'inputs': pb['values_in_order_of_kani_any_calls'], 'input_schema': m.get('inputs')}
                     f['replay_result'] = pb['native_replay']
